@@ -13,14 +13,14 @@ package imports
 
 // An alias without "/" matches a path on whole segments exactly when it is the path's first segment.
 //@ lemma alias_is_first_segment(a string, p string)
-//@   property C14
+//@   property C14 C02 C03 C04 C13 C15
 //@   requires !contains(a, "/")
 //@   ensures [iff] (p == a || hasPrefix(p, a + "/")) <==> (a == firstSegment(p))
 
 // C14: a reference resolves through the alias table on whole path segments only: the alias that applies is
 // the first path segment (by the lemma above this is the only alias that can match), and it is replaced by its path.
 //@ func (*imports).decorateImport pure
-//@   property C14 C08
+//@   property C14 C08 C02 C03 C04 C13 C15
 //@   deterministic
 //@   uses alias_is_first_segment
 //@   requires [alias_table_invariant] aliasesWellFormed(i.prefixes)
@@ -41,7 +41,7 @@ package imports
 //@   ensures [helpers_denote_helpers] i.decorateImport("github.com/gontainer/gontainer-helpers/v3/container") == "github.com/gontainer/gontainer-helpers/v3/container"
 
 //@ func (*imports).RegisterPrefixAlias
-//@   property C14
+//@   property C14 C02 C03 C04 C13 C15
 //@   requires i.prefixes != nil
 //@   modifies i.prefixes
 //@   ensures [rejects_duplicates] (result != nil) <==> (alias in old(i.prefixes))
@@ -60,7 +60,7 @@ package imports
 //@   && (forall p string, q string :: p in m && q in m && p != q ==> m[p] != m[q])
 
 //@ func (*imports).Alias
-//@   property C14
+//@   property C14 C02 C03 C04 C13 C15
 //@   requires i.imports != nil
 //@   requires [alias_table_invariant] aliasesWellFormed(i.prefixes)
 //@   requires [import_table_invariant] importsWellFormed(i.imports, i.counter)
@@ -78,7 +78,7 @@ package imports
 // Imports(): every used package exactly once, with its local name, in strictly increasing order of the path
 // (hence a function of the table's contents alone, independent of map iteration order; C08).
 //@ func (*imports).Imports
-//@   property C14 C08
+//@   property C14 C08 C02 C03 C04 C13 C15
 //@   ensures [sound] forall k int :: 0 <= k && k < len(result) ==> (result[k].Path in i.imports) && result[k].Alias == i.imports[result[k].Path]
 //@   ensures [complete] forall p string :: p in i.imports ==> (exists k int :: 0 <= k && k < len(result) && result[k].Path == p)
 //@   ensures [strictly_increasing] forall a int, b int :: 0 <= a && a < b && b < len(result) ==> result[a].Path < result[b].Path
@@ -88,7 +88,7 @@ package imports
 //@     invariant [distinct] forall a int, b int :: 0 <= a && a < b && b < len(imps) ==> imps[a].Path != imps[b].Path
 
 //@ func New
-//@   property C14
+//@   property C14 C02 C03 C04 C13 C15
 //@   ensures [nonnil] result != nil && result.imports != nil && result.prefixes != nil
 //@   ensures [empty] empty(result.imports) && empty(result.prefixes) && result.counter == 0
 //@   ensures [invariants] importsWellFormed(result.imports, result.counter) && aliasesWellFormed(result.prefixes)
